@@ -6,9 +6,10 @@ ALL = ['C%02d' % i for i in range(1, 21)]
 PENDING_REASON = ('not claimed yet: the Coq model/theorems and the tie to the source for this property are still being built '
                   '(DESIGN.md section 3 gives the plan); nothing about it is asserted by this manifest')
 checks, na = [], []
+READY = json.load(open('tools/ready.json'))   # ids reviewed and released by the integrator
 for pid in ALL:
     path = os.path.join('harness', 'props', pid.lower() + '.py')
-    if not os.path.exists(path):
+    if not os.path.exists(path) or pid not in READY:
         na.append({'property_id': pid, 'reason': PENDING_REASON})
         continue
     mod = importlib.import_module('harness.props.' + pid.lower())
